@@ -200,7 +200,9 @@ func selfCheck(e *env) string {
 			g = rs.Genesis()
 		}
 	}
-	p := ser(func(s *common.ZeroCopySink) { (&hscommon.SyncGenesisHeaderParam{ChainID: 102, GenesisHeader: g}).Serialization(s) })
+	p := ser(func(s *common.ZeroCopySink) {
+		(&hscommon.SyncGenesisHeaderParam{ChainID: 102, GenesisHeader: g}).Serialization(s)
+	})
 	add(2, e.tx(utils.HeaderSyncContractAddress, hscommon.SYNC_GENESIS_HEADER, p, polyenv.Single(e.accts["U"])))
 	add(2, e.tx(utils.HeaderSyncContractAddress, hscommon.SYNC_GENESIS_HEADER, p, polyenv.Multi(e.vals)))
 	add(3, e.tx(utils.NodeManagerContractAddress, node_manager.COMMIT_DPOS, nil, polyenv.Multi(e.vals)))
@@ -233,5 +235,5 @@ func (x *runner) latentContextLeak() {
 	x.r.Note("latent_context_leak_after_swallowed_callee_error", map[string]any{
 		"what":     "tx(unrelated key) -> P1.tryRelay{ NativeCall(node_manager, fails) ignored; NativeCall(relayer_manager.registerRelayer, owner = node_manager address) }",
 		"accepted": ok, "error": fmt.Sprint(err),
-		"meaning":  "accepted=true: the witness check passed for a contract that is not the immediate caller, because Invoke() leaves the failed callee on the context stack; not reachable in the tree (no contract uses NativeCall)"})
+		"meaning": "accepted=true: the witness check passed for a contract that is not the immediate caller, because Invoke() leaves the failed callee on the context stack; not reachable in the tree (no contract uses NativeCall)"})
 }
